@@ -19,9 +19,14 @@ Accepted shapes (K is the local kind variable, P the `problem_kind` argument)
   supports(problem_kind):    return problem_kind <= Cls.supported_kind()
   supports_compilation(ck):  return ck == CompilationKind.X   (or an `or` of such / `ck in (…)`)
 
-`set_*/unset_*/has_*` must name methods that `ProblemKindMeta` really creates (FEATURES keys / features, lower
-case); the feature argument is emitted as written (membership in the group is checked by `Prog.wf` in Lean and
-decided on the regenerated table).  A call `Other.supported_kind()` is inlined (the callee's statements first).
+`set_*/unset_*/has_*` must name methods that `ProblemKindMeta.__new__` really creates (it is mirrored here on the
+FEATURES table: `set_<m>/unset_<m>` per group m; `has_<m>` tests FEATURES[m] + [m]; `has_<f>` tests [f]; a later
+`setattr` of the same name overrides an earlier one); the feature passed to `set_<m>/unset_<m>` must be a literal
+member of FEATURES[m] (otherwise `_set/_unset` fail their first assertion whenever reached).  What is emitted:
+`set f` / `unset f` and `has <src> [features tested]`.  For every `resulting_problem_kind` also the list of the
+features occurring in it and the same program over indices into that list (string comparison in the Lean kernel
+is slow; Props/C09 decides `program.map index = indexed program` once and runs the finite checks on the latter).
+A call `Other.supported_kind()` is inlined (the callee's statements first).
 Methods that a class does not define are looked up in its base classes within the package (MA* removers).
 A class all of whose kind methods only `raise` (CompilersPipeline) is listed as `pipelineClasses`, not as a compiler.
 """
@@ -108,22 +113,26 @@ class _Tr:
     def __init__(self, groups, classes):
         self.groups = groups
         self.gnames = {g for g, _ in groups}
-        self.hasnames = set(self.gnames)
-        for _, fl in groups:
-            self.hasnames |= set(fl)
+        # ProblemKindMeta.__new__ (problem_kind.py:190-199), keyed by the generated method name
+        self.has, self.setters = {}, {}
+        for m, l in groups:
+            self.setters[m.lower()] = list(l)
+            self.has["has_" + m.lower()] = list(l) + [m]
+            for f in l:
+                self.has["has_" + f.lower()] = [f]
         self.classes = classes
 
     def method_name(self, attr, rel, line):
-        """set_time -> ('set', 'TIME'); has_x -> ('has', 'X')"""
-        for pre in ("set_", "unset_", "has_"):
+        """set_time -> ('set', [features of TIME]); has_x -> ('has', [features tested])"""
+        if attr.startswith("has_"):
+            if attr not in self.has:
+                raise TranslationBroken(rel, line, f"ProblemKind has no method {attr}")
+            return "has", self.has[attr]
+        for pre in ("set_", "unset_"):
             if attr.startswith(pre):
-                up = attr[len(pre):].upper()
-                if up.lower() != attr[len(pre):]:
-                    raise TranslationBroken(rel, line, f"method name {attr} is not lower case")
-                pool = self.hasnames if pre == "has_" else self.gnames
-                if up not in pool:
+                if attr[len(pre):] not in self.setters:
                     raise TranslationBroken(rel, line, f"ProblemKind has no method {attr}")
-                return pre[:-1], up
+                return pre[:-1], self.setters[attr[len(pre):]]
         raise TranslationBroken(rel, line, f"unsupported ProblemKind method {attr}")
 
     def cond(self, e, K, P, rel):
@@ -132,35 +141,35 @@ class _Tr:
             parts = [self.cond(v, K, P, rel) for v in e.values]
             acc = parts[-1]
             for p in reversed(parts[:-1]):       # right-nested, same truth table and same short-circuit order
-                acc = f"(.{op} {p} {acc})"
+                acc = (op, p, acc)
             return acc
         if isinstance(e, ast.UnaryOp) and isinstance(e.op, ast.Not):
-            return f"(.not {self.cond(e.operand, K, P, rel)})"
+            return ("not", self.cond(e.operand, K, P, rel))
         if (isinstance(e, ast.Call) and not e.args and not e.keywords and isinstance(e.func, ast.Attribute)
                 and isinstance(e.func.value, ast.Name) and e.func.value.id in (K, P)):
-            kind, name = self.method_name(e.func.attr, rel, e.lineno)
+            kind, feats = self.method_name(e.func.attr, rel, e.lineno)
             if kind != "has":
                 raise TranslationBroken(rel, e.lineno, "condition is not a has_* test")
-            src = ".cur" if e.func.value.id == K else ".inp"
-            return f"(.has {src} {_lean_str(name)})"
+            return ("has", "cur" if e.func.value.id == K else "inp", list(feats))
         raise TranslationBroken(rel, getattr(e, "lineno", 0), "unsupported condition in kind transformer")
 
     def stmts(self, ss, K, P, rel, loopvar=None):
-        """-> list of items: ('set'|'unset', group, feature) | ('ite', cond, [items], [items])"""
+        """-> list of items: ('set'|'unset', feature) | ('ite', cond, [items], [items])"""
         out = []
         for s in ss:
             if isinstance(s, ast.Expr) and isinstance(s.value, ast.Call) and isinstance(s.value.func, ast.Attribute) \
                     and isinstance(s.value.func.value, ast.Name) and s.value.func.value.id == K:
                 c = s.value
-                kind, grp = self.method_name(c.func.attr, rel, s.lineno)
+                kind, possible = self.method_name(c.func.attr, rel, s.lineno)
                 if kind not in ("set", "unset") or len(c.args) != 1 or c.keywords:
                     raise TranslationBroken(rel, s.lineno, "unsupported call on the kind variable")
                 a = c.args[0]
-                if loopvar is not None and isinstance(a, ast.Name) and a.id == loopvar[0]:
-                    for f in loopvar[1]:
-                        out.append((kind, grp, f))
-                else:
-                    out.append((kind, grp, _const_str(a, rel)))
+                fs = loopvar[1] if (loopvar is not None and isinstance(a, ast.Name) and a.id == loopvar[0]) \
+                    else [_const_str(a, rel)]
+                for f in fs:
+                    if f not in possible:
+                        raise TranslationBroken(rel, s.lineno, f"{c.func.attr}({f!r}): not a feature of that group")
+                    out.append((kind, f))
             elif isinstance(s, ast.If):
                 out.append(("ite", self.cond(s.test, K, P, rel), self.stmts(s.body, K, P, rel, loopvar),
                             self.stmts(s.orelse, K, P, rel, loopvar)))
@@ -273,15 +282,45 @@ class _Tr:
         return go(b[0].value)
 
 
-def _prog(items, ind="    "):
-    """items -> Lean term of type Prog (continuation style)"""
+def _cond(c, a):
+    if c[0] == "has":
+        return f"(.has .{c[1]} {_lean_list([a(f) for f in c[2]])})"
+    if c[0] == "not":
+        return f"(.not {_cond(c[1], a)})"
+    return f"(.{c[0]} {_cond(c[1], a)} {_cond(c[2], a)})"
+
+
+def _prog(items, a=_lean_str, ind="    "):
+    """items -> Lean term of type Prog (continuation style); `a` prints one feature"""
     if not items:
         return ".done"
     it, rest = items[0], items[1:]
     if it[0] in ("set", "unset"):
-        return f"(.{it[0]} {_lean_str(it[1])} {_lean_str(it[2])} <|\n{ind}{_prog(rest, ind)})"
+        return f"(.{it[0]} {a(it[1])} <|\n{ind}{_prog(rest, a, ind)})"
     _, c, t, e = it
-    return f"(.ite {c}\n{ind}  {_prog(t, ind + '  ')}\n{ind}  {_prog(e, ind + '  ')} <|\n{ind}{_prog(rest, ind)})"
+    return (f"(.ite {_cond(c, a)}\n{ind}  {_prog(t, a, ind + '  ')}\n{ind}  {_prog(e, a, ind + '  ')} <|\n"
+            f"{ind}{_prog(rest, a, ind)})")
+
+
+def _occurring(items, acc):
+    """features of a program in order of first occurrence"""
+    def cond(c):
+        if c[0] == "has":
+            for f in c[2]:
+                if f not in acc:
+                    acc.append(f)
+        else:
+            for x in c[1:]:
+                cond(x)
+    for it in items:
+        if it[0] in ("set", "unset"):
+            if it[1] not in acc:
+                acc.append(it[1])
+        else:
+            cond(it[1])
+            _occurring(it[2], acc)
+            _occurring(it[3], acc)
+    return acc
 
 
 def _compilation_kind_enum():
@@ -347,9 +386,9 @@ def gen_kinds():
             if k not in cks:
                 raise TranslationBroken(d["file"], d["line"], f"unknown CompilationKind.{k}")
     L = ["/- GENERATED by harness/translate_C09.py from /repo — do not edit. -/",
-         "import UPVerif.Core.KindProg", "namespace UPVerif.Gen.Kinds", "open UPVerif.KindProg", ""]
+         "import UPVerif.Core.KindProg", "namespace UPVerif.Gen.Kinds", "open UPVerif.Kind UPVerif.KindProg", ""]
     for d in decls:
-        L.append(f"def {d['name']}.supportedProg : Prog :=\n    {_prog(d['supported'])}")
+        L.append(f"def {d['name']}.supportedProg : Prog Feature :=\n    {_prog(d['supported'])}")
         L.append("")
     for d in decls:
         L.append(f"/-- {d['file']}:{d['line']} -/")
@@ -359,6 +398,9 @@ def gen_kinds():
         L.append(f"  supported := {d['name']}.supportedProg")
         L.append(f"  supports := {d['supports']}.supportedProg")
         L.append(f"  resulting :=\n    {_prog(d['resulting'])}")
+        names = _occurring(d["resulting"], [])
+        L.append(f"  names := {_lean_list([_lean_str(f) for f in names])}")
+        L.append(f"  resultingIdx :=\n    {_prog(d['resulting'], lambda f: str(names.index(f)))}")
         L.append("")
     L.append("def decls : List Decl := " + _lean_list([d["name"] for d in decls]))
     L.append("")
